@@ -23,6 +23,11 @@ def run(ctx):
         emitted = RO.check_clean_vector(ctx, led, v, "C07")
         RO.check_reparse(ctx, led, v, emitted)
         RO.check_eq_hash(ctx, led, v)
+        # "re-parsing it yields ... the same scores": clean_vector() drops Not Defined metrics, so
+        # every score (and its None-ness) must be the same for a metric absent and Not Defined
+        from ..rules_flow import check_nd
+
+        check_nd(ctx, led, v, rule="C07.reparse.nd")
         for label, (seen, val, st) in emitted.items():
             n += len(seen)
     led.require_min("C07.emit", n, 100, "emitted fields analysed (14 + 2x22 + 2x32)")
